@@ -277,10 +277,16 @@ C07AccNext(acc, pre, e, post) ==
                    ELSE IF bn \in seen THEN acc.optin[bn]
                    ELSE Bit(post.banks[bn].flags, BANK_PERMISSIONLESS_BAD_DEBT)]]
 
+\* the same state with isolated-tier banks read as collateral-tier ones: the program values a deposit in an isolated-tier
+\* bank at zero for every purpose, the unweighted ("equity") valuation included
+VisIso(s) == [s EXCEPT !.banks = [bn \in DOMAIN s.banks |->
+                IF s.banks[bn].cfg.risk_tier = 1 THEN [s.banks[bn] EXCEPT !.cfg = [@ EXCEPT !.risk_tier = 0]] ELSE s.banks[bn]]]
 C07(pre, e, post, acc, line) ==
   /\ (e.ev = "bankruptcy" /\ Ok(e)) =>
        LET an == e.a.acct bn == e.a.bank a == pre.accts[an] b == pre.banks[bn] q == post.banks[bn] g == pre.groups[b.group]
            h == HealthRef(pre, e, a, "Equity", "unfav")
+           hasIso == \E i \in ActiveSlots(a) : BGe(a.bal[i].a, FONE) /\ pre.banks[a.bal[i].bank].cfg.risk_tier = 1
+           hx == HealthRef(VisIso(pre), e, a, "Equity", "unfav")
            hf == HealthRef(pre, e, a, "Equity", "fav")
            signer == IF Has(e.a, "signer") THEN e.a.signer ELSE g.admin
            lsh == PosBits(a, bn, "l")
@@ -304,6 +310,12 @@ C07(pre, e, post, acc, line) ==
        /\ (h.known) =>
             /\ Chk("C07", "assets_worth_less_than_liabilities", line, RLt(RSub(h.av, h.tol), RAdd(h.lv, h.tol)), [acct |-> an])
             /\ Chk("C07", "assets_worth_less_than_ten_cents", line, RLt(RSub(h.av, h.tol), BANKRUPT_USD), [acct |-> an])
+            \* "unweighted assets" are all of the account's deposits at their price, whatever tier the bank is in
+            /\ (hasIso /\ hx.known) =>
+                 Chk("C07", "deposits_in_isolated_tier_banks_are_assets_too", line,
+                     RLt(RSub(hx.av, hx.tol), BANKRUPT_USD) /\ RLt(RSub(hx.av, hx.tol), RAdd(hx.lv, hx.tol)),
+                     [acct |-> an, bankrupt_when_isolated_tier_deposits_are_ignored |->
+                        (RLt(RSub(h.av, h.tol), BANKRUPT_USD) /\ RLt(RSub(h.av, h.tol), RAdd(h.lv, h.tol)))])
             /\ Chk("C07", "account_owes_in_this_bank", line, RGt(RMul(R(lsh), R(b.lsv)), RSub(EPS, U)), [acct |-> an, bank |-> bn])
             /\ Chk("C07", "only_admins_unless_permissionless", line,
                    Bit(b.flags, BANK_PERMISSIONLESS_BAD_DEBT) \/ signer \in {g.admin, g.risk_admin}, [signer |-> signer])
